@@ -32,11 +32,12 @@ GEN = os.path.join(core.VERIF, "tools", "gen", "gen_shims.py")
 # ops of rt/h_io.c
 (O_READ, O_WRITE, O_RECV, O_SEND, O_READV, O_WRITEV, O_RECVFROM, O_SENDTO, O_RECVMSG, O_SENDMSG, O_READ_ALL,
  O_WRITE_ALL, O_FCNTL_NB, O_FIONBIO, O_CLOSE, O_ACCEPT, O_CONNECT, O_SLEEP, O_BARRIER, O_SHUTWR, O_SETFL,
- O_GETFL, O_IDIOM) = range(1, 24)
+ O_GETFL, O_IDIOM, O_CLOSE_RACE) = range(1, 25)
 OPNAME = {1: "read", 2: "write", 3: "recv", 4: "send", 5: "readv", 6: "writev", 7: "recvfrom", 8: "sendto",
           9: "recvmsg", 10: "sendmsg", 11: "read*", 12: "write*", 13: "fcntl(F_SETFL,O_NONBLOCK)",
           14: "ioctl(FIONBIO)", 15: "close", 16: "accept", 17: "socket+connect", 18: "sleep", 19: "barrier",
-          20: "shutdown(WR)", 21: "fcntl(F_SETFL,v)", 22: "fcntl(F_GETFL)", 23: "F_GETFL/F_SETFL idiom"}
+          20: "shutdown(WR)", 21: "fcntl(F_SETFL,v)", 22: "fcntl(F_GETFL)", 23: "F_GETFL/F_SETFL idiom",
+          24: "close [another thread creates a socketpair as the kernel releases the number]"}
 RXV = {0: "read", 1: "recv", 2: "readv", 3: "recvfrom", 4: "recvmsg"}
 TXV = {0: "write", 1: "send", 2: "writev", 3: "sendto", 4: "sendmsg"}
 BADSLOT = {-1: "-1", -2: "max_fd", -3: "max_fd+7", -4: "INT_MAX", -5: "closed fd", -6: "max_fd-1 (never opened)"}
@@ -103,7 +104,7 @@ def describe(text):
             elif op == O_BARRIER:
                 d.append("barrier%d" % a)
             else:
-                d.append("%s(%s%s%s)" % (OPNAME[op], s, ",%d" % a if op not in (O_CLOSE, O_ACCEPT, O_CONNECT, O_FCNTL_NB, O_GETFL) else "",
+                d.append("%s(%s%s%s)" % (OPNAME[op], s, ",%d" % a if op not in (O_CLOSE, O_CLOSE_RACE, O_ACCEPT, O_CONNECT, O_FCNTL_NB, O_GETFL) else "",
                                          ",MSG_DONTWAIT" if (b & 1) and op in (O_RECV, O_SEND, O_RECVFROM, O_SENDTO, O_RECVMSG, O_SENDMSG) else ""))
         out.append("  thread %d: %s" % (t, "; ".join(d)))
     return "\n".join(out)
@@ -267,6 +268,21 @@ def fam_closewake(rng, tier):
     return res
 
 
+def fam_closerace(rng, tier):
+    """descriptor-number reuse: while thread 1 is inside close(), the number is released by the kernel and another
+    thread's socketpair() receives it (slots 101 / 201).  The new descriptor is an ordinary blocking descriptor: a read
+    with nothing pending waits for the peer's write, F_GETFL shows no O_NONBLOCK, a large write completes."""
+    res = []
+    for nkt in (1, 2):
+        for kind in (0, 1, 2):
+            for rx in (O_READ, O_RECV, O_READV):
+                thr = [[(O_CLOSE_RACE, 0, 0, 0), (rx, 101, 3, 0), (O_GETFL, 101, 0, 0), (O_WRITE_ALL, 101, 300000, 0)],
+                       [(O_SLEEP, 0, 60, 0), (O_WRITE, 201, 3, 0), (O_READ_ALL, 201, 300000, 0)]]
+                res.append(Script("closerace", [kind], thr, nkt=nkt, timeout=3000))
+        # the descriptor being closed has a blocked reader (woken with an error by the close): no reference run
+    return res
+
+
 def fam_idiom(rng, tier):
     """the usual ways programs switch modes (beyond the exact forms the shims special-case)"""
     res = []
@@ -342,7 +358,7 @@ def fam_duplex(rng, tier):
     return res
 
 
-FAMILIES = [fam_duplex, fam_mix, fam_transfer, fam_pingpong, fam_multi, fam_nonblock, fam_badfd, fam_accept, fam_closewake, fam_migrate]
+FAMILIES = [fam_closerace, fam_duplex, fam_mix, fam_transfer, fam_pingpong, fam_multi, fam_nonblock, fam_badfd, fam_accept, fam_closewake, fam_migrate]
 
 
 def gen_scripts(ctx, tier):
@@ -507,6 +523,8 @@ def classify(sc, why, I=None):
 CLASS_ID = {"bad-fd-close": "F-C08a", "bad-fd-modeswitch": "F-C08b", "nonblocking-ignored": "F-C08c",
             "accept-eagain": "F-C08d", "mode-idiom": "F-C08e", "stale-errno": "F-C08f"}
 CLASS_TEXT = {
+    "other:closerace": "a descriptor created by another thread while close() is in progress (it receives the number the "
+                       "kernel just released) loses its bookkeeping: close() touches fd_info / the event layer after the real close",
     "other:duplex": "a fiber blocked on a descriptor is not resumed when it becomes ready while another fiber is blocked on "
                     "the same descriptor for the other direction",
     "bad-fd-close": "close() of a descriptor outside [0,max_fd) indexes wait_info unchecked in fiber_fd_closed",
@@ -755,7 +773,7 @@ def run(ctx):
         nrep = nbad = nent = 0
         drv = driver(ctx) if G is not None else None
         if drv:
-            nrep, nbad, nent = run_model(ctx, drv, G, [(s, i) for (s, i, r) in runs], max_fd_here())
+            nrep, nbad, nent = run_model(ctx, drv, G, [(s, i) for (s, i, r) in runs if s.family != "closerace"], max_fd_here())
             ctx.oblige("correspondence:fdshim-replay(%d runs)" % nrep, nbad == 0, "%d of %d recorded runs are not what the model does" % (nbad, nrep))
         badfd = sum(1 for (s, i, r) in runs if s.family == "badfd")
         ctx.coverage.update({
